@@ -441,7 +441,8 @@ def progfuzz(prop, tier, seed, replay=None):
                                         panic_msg="run() did not return: no progress for %ss and no thread of the process consumed CPU time (%s idle windows of 5 s)"
                                         % (dl.get("no_progress_s"), dl.get("idle_cpu_windows_of_5s")))],
                          signature="%s:deadlock" % prop, shrunk=False, entries=[], members=mem["members"], ops=dl.get("ops"), proc_config=pc)
-                results.append(dict(evaluations=0, runs=0, nontrivial=0, too_big=0, distribution={"deadlocked_runner_processes": 1}, samples=[],
+                results.append(dict(evaluations=1, runs=1, nontrivial=0, too_big=0, distribution={"deadlocked_runner_processes": 1},
+                                    samples=[dict(deadlocked_case=(dl.get("ops") or dl.get("input") or "")[:2000], process_config=pc)],
                                     violations=[v], infra_errors=[], known=[]))
                 continue
             if not os.path.exists(res_path):
